@@ -372,12 +372,23 @@ def c03_items(tier, rnd):
                             for p in P["params"]:
                                 if p["k"] == "type":
                                     p["inline"] = "::dx_support::Tr"
+                        # a declared INLINE bound that mentions `Self` (it must keep meaning the item type in every generated impl)
+                        if len(Ps) % 5 == 0:
+                            for p in P["params"]:
+                                if p["k"] == "type":
+                                    p["inline"] = (p["inline"] + " + " if p.get("inline") else "") + "::dx_support::Rel<Self>"
+                                    break
                         if stag == "tval":
                             P["tval"] = True
                         P["strict"] = True
                         P["usage"] = stag
                         P["conc"] = "int" if (t in bf.BINOPS or t in bf.UNOPS or t.endswith("Assign") or t == "Copy") else "any"
                         Ps.append(P)
+                        # the same item with every USE of a parameter spelled as a raw identifier (`r#T1`): it is the same parameter
+                        if len(Ps) % 6 == 0:
+                            P2 = copy.deepcopy(P)
+                            P2["raw_use"] = True
+                            Ps.append(P2)
     return Ps
 
 
@@ -513,6 +524,14 @@ C20_SPECIAL = [
     ("raw_param_unsized_where", "Debug, PartialEq, Hash", "pub struct X<r#Match> where r#Match: ?::core::marker::Sized { pub a: u8, pub b: r#Match }"),
     ("trait_object_fields", "Debug", "pub struct X<'a>(pub &'a (dyn ::core::fmt::Debug + Send), pub ::std::boxed::Box<dyn ::core::fmt::Debug + Send + 'a>, pub u8);"),
     ("trait_object_tail", "Debug", "pub struct X(pub u8, pub dyn ::core::fmt::Debug + Send);"),
+    ("raw_use_of_param", "Clone, Debug, Default, PartialEq, Eq, PartialOrd, Ord, Hash", "pub struct X<T>(pub r#T, pub u8);"),
+    ("raw_param_in_args", "Clone, Debug, Default, PartialEq, Hash", "pub enum X<r#Match> { #[default] A(::std::vec::Vec<r#Match>), B { v: ::core::option::Option<r#Match> } }"),
+    ("raw_const_param_use", "Clone, Debug, PartialEq, Eq, Hash", "pub struct X<const N: usize>(pub [u8; r#N], pub u8);"),
+    ("raw_param_ops", "Neg, Add, SubAssign", "pub struct X<T>(pub r#T);"),
+    ("self_nested_in_where_eq", "Eq, PartialEq", "pub struct X<T> where ::core::option::Option<::std::boxed::Box<Self>>: ::core::marker::Sized { pub a: T }"),
+    ("self_nested_in_inline_eq", "Eq, PartialEq, Clone", "pub struct X<T: ::dx_support::Rel<::std::vec::Vec<Self>>> { pub a: T }"),
+    ("self_nested_ops", "Neg, Add, SubAssign", "pub struct X<T: ::dx_support::Rel<::std::vec::Vec<Self>>>(pub T) where ::core::option::Option<Self>: ::core::marker::Sized;"),
+    ("self_projection_where", "Eq, PartialEq, Neg", "pub struct X<T>(pub T) where <Self as ::dx_support::Tr>::Assoc: ::core::marker::Sized, Self: ::dx_support::Tr;"),
     # known findings D19 / D20 (see known_findings.json)
     ("deref_trait_object_field", "Deref, DerefMut", "pub struct X(pub dyn ::core::fmt::Debug);"),
     ("deref_trait_object_field_multi", "Deref", "pub struct X(pub dyn ::core::fmt::Debug + Send);"),
